@@ -7,5 +7,5 @@ unset GOARCH GOOS
 if [ ! -x bin/verifcheck ] || [ -n "$(find checker -name '*.go' -newer bin/verifcheck 2>/dev/null | head -1)" ]; then
   (cd checker && go build -o ../bin/verifcheck .) || { echo "cannot build verifcheck"; exit 2; }
 fi
-p="$1"; t="${VERIF_TIER:-$2}"; shift 2
-exec ./bin/verifcheck -property "$p" -tier "${t:-quick}" "$@"
+p="$1"; t="${2:-${VERIF_TIER:-quick}}"; shift 2
+exec ./bin/verifcheck -property "$p" -tier "$t" "$@"
